@@ -615,7 +615,7 @@ fn cram_roundtrip(tier: &str) -> Result<String, String> {
     // per reference with the true span, and queries through it ----
     {
         let mut multi: Vec<String> = Vec::new();
-        for (name, r, pos, cig) in [("d.1", "sq0", 100usize, "300D"), ("d.2", "sq0", 150, "20D"), ("d.3", "sq0", 380, "30D"), ("d.4", "sq1", 50, "100D"), ("d.5", "sq1", 60, "10D"), ("d.6", "sq1", 400, "5D")] { multi.push(format!("{name}\t0\t{r}\t{pos}\t30\t{cig}\t*\t0\t0\t*\t*\n")); }
+        for (name, r, pos, cig) in [("d.0", "sq0", 90usize, "5D"), ("d.1", "sq0", 100, "300D"), ("d.2", "sq0", 150, "20D"), ("d.4", "sq1", 50, "100D"), ("d.5", "sq1", 60, "10D")] /* the last read of each reference ends BEFORE an earlier one */ { multi.push(format!("{name}\t0\t{r}\t{pos}\t30\t{cig}\t*\t0\t0\t*\t*\n")); }
         multi.push(format!("u.1\t4\t*\t0\t0\t*\t*\t0\t0\tACGTACGT\t{}\n", qual(8, 1)));
         multi.push(format!("u.2\t4\t*\t0\t0\t*\t*\t0\t0\tGGGG\t{}\n", qual(4, 2)));
         let path = std::env::temp_dir().join(format!("verif-native-{}-multi.cram", std::process::id()));
